@@ -69,8 +69,9 @@ fn base_plans(tier: Tier) -> Vec<Plan> {
     v.push(plain(phys2(), Order::Asc, alphabet(u3(), &W1, 1, true)));
     v.push(plain(Cfg::Mem, Order::Asc, names_prim.clone()));
     v.push(plain(Cfg::Phys, Order::Asc, names_prim.clone()));
-    v.push(plain(mem2(), Order::Desc, alphabet(u_names(), &W1, 1, false)));
+    v.push(plain(mem2(), Order::Desc, alphabet(u_names_small(), &W1, 1, false)));
     if tier == Tier::Thorough {
+        v.push(plain(mem2(), Order::Desc, alphabet(u_names(), &W1, 1, false)));
         let names_full = alphabet(u_names(), &W1, 1, true);
         v.push(plain(Cfg::Mem, Order::Asc, alphabet(u23(), &W1, 1, true)));
         v.push(plain(Cfg::Mem, Order::Asc, alphabet(u32(), &W1, 1, true)));
@@ -97,14 +98,17 @@ fn overlay_plans(tier: Tier) -> Vec<Plan> {
     let mut v = vec![];
     let a4 = alphabet(u4(), &W1, 2, true);
     let a3 = alphabet(u3(), &W1, 2, true);
-    v.push(populated(mem2(), Order::Asc, a4.clone(), &u3(), false));
-    v.push(populated(mem2(), Order::Desc, a3.clone(), &u3(), false));
-    v.push(populated(phys2(), Order::Asc, alphabet(u3(), &W1, 1, true), &u3(), false));
-    v.push(populated(Cfg::Ov(vec![Cfg::Mem, Cfg::Mem, Cfg::Mem]), Order::Asc, a3.clone(), &u3(), false));
+    let u2 = Universe::new("U2{a,a/a}", &["/a", "/a/a"]);
+    v.push(populated(mem2(), Order::Asc, a3.clone(), &u3(), false));
+    v.push(populated(mem2(), Order::Desc, alphabet(u3(), &W1, 1, true), &u2, true));
+    v.push(populated(phys2(), Order::Asc, alphabet(u3(), &W1, 1, true), &u2, false));
+    v.push(populated(Cfg::Ov(vec![Cfg::Mem, Cfg::Mem, Cfg::Mem]), Order::Asc, alphabet(u3(), &W1, 1, true), &u2, false));
     if tier == Tier::Thorough {
         v.push(populated(mem2(), Order::Asc, a4.clone(), &u3(), true));
         v.push(populated(mem2(), Order::Asc, alphabet(u22(), &W1, 2, true), &u4(), false));
-        v.push(populated(Cfg::Ov(vec![Cfg::Mem, Cfg::Mem, Cfg::Mem, Cfg::Mem]), Order::Asc, a3.clone(), &u3(), false));
+        v.push(populated(phys2(), Order::Asc, a3.clone(), &u3(), false));
+        v.push(populated(Cfg::Ov(vec![Cfg::Mem, Cfg::Mem, Cfg::Mem]), Order::Asc, a3.clone(), &u3(), false));
+        v.push(populated(Cfg::Ov(vec![Cfg::Mem, Cfg::Mem, Cfg::Mem, Cfg::Mem]), Order::Asc, alphabet(u3(), &W1, 1, true), &u2, false));
         v.push(populated(Cfg::Ov(vec![mem2(), Cfg::Mem]), Order::Asc, a3.clone(), &u3(), false));
         v.push(populated(Cfg::Ov(vec![Cfg::alt(Cfg::Mem, "/Z"), Cfg::Mem]), Order::Asc, a3.clone(), &u3(), false));
         v.push(populated(Cfg::alt(mem2(), "/Z"), Order::Asc, a3.clone(), &u3(), false));
@@ -211,6 +215,7 @@ fn spec_for(id: &str, tier: Tier) -> Spec {
                 mon: Monitors {
                     errpaths: true,
                     model: true,
+                    model_only_kinds: true,
                     ..Default::default()
                 },
                 plans,
@@ -271,7 +276,13 @@ pub fn run(ctx: &Ctx, id: &str) -> i32 {
             "explanation": "explicit-state BFS over the real implementation; the reference model is advanced along every explored transition and compared with the implementation after every step",
         }),
     );
-    finish(ctx, &info, cov, &spec.assumptions, &vio)
+    let mut counts = std::collections::BTreeMap::new();
+    for st in &stats {
+        for (k, v) in &st.vio_counts {
+            *counts.entry(k.clone()).or_insert(0u64) += v;
+        }
+    }
+    finish_counts(ctx, &info, cov, &spec.assumptions, &vio, &counts)
 }
 
 /// Re-executes one replay file without the explorer and re-runs the monitors on that step.
